@@ -260,7 +260,42 @@ fn windows_s(ctx: &mut Ctx) {
   }
 }
 
+/// every profile length n = 1 … 600: the end samples at exactly z = ∓1 and every sample at its abscissa
+/// z_j = −1 + 2j/(n−1)  (the index arithmetic is length dependent)
+fn interpolation_all_lengths(ctx: &mut Ctx) {
+  for n in 1..=600usize {
+    let v: Vec<f64> = (0..n).map(|j| 0.1 + 0.8 * ((j as f64 * 0.6180339887498949).fract())).collect();
+    let w = Apodization::Interpolate(v.clone());
+    let first = ic(&w, -1., 1e-3);
+    let last = ic(&w, 1., 1e-3);
+    let ok_ends = first == Some(v[0]) && last == Some(v[n - 1]);
+    ctx.s("C19.interp", ok_ends, "interp/ends", &format!("kind=Interpolate n={} first={:?} last={:?} expected=({:e},{:e})", n, first, last, v[0], v[n - 1]));
+    if n <= 64 || n % 7 == 0 || ctx.thorough {
+      apod_case(ctx, &w, 1., 1e-3);
+      apod_case(ctx, &w, -1., 1e-3);
+    }
+    if n >= 2 {
+      let mut ok = true;
+      let mut why = String::new();
+      for j in 0..n {
+        let z = (-1. + 2. * j as f64 / (n as f64 - 1.)).clamp(-1., 1.);
+        let slope = if j + 1 < n { (v[j + 1] - v[j]).abs() } else { (v[j] - v[j - 1]).abs() }.max(if j > 0 { (v[j] - v[j - 1]).abs() } else { 0. }) * (n as f64 - 1.) / 2.;
+        match ic(&w, z, 1e-3) {
+          Some(x) if (x - v[j]).abs() <= 1e-12 + slope * 1e-15 => {}
+          other => {
+            ok = false;
+            why = format!("j={} z={:e} got={:?} expected={:e}", j, z, other, v[j]);
+          }
+        }
+      }
+      ctx.s("C19.interp", ok, "interp/piecewise-linear", &format!("kind=Interpolate n={} at=sample-abscissae {}", n, why));
+    }
+  }
+  ctx.count("interp/all-lengths-1..600");
+}
+
 fn interpolation_s(ctx: &mut Ctx) {
+  interpolation_all_lengths(ctx);
   for _ in 0..(if ctx.thorough { 3000 } else { 300 }) {
     let v = gen_values(&mut ctx.rng);
     let n = v.len();
